@@ -67,3 +67,16 @@ func VerifFromRunes(r []rune) String {
 func VerifZeroFilled() bool {
 	return Zero.gc != nil && *Zero.gc != nil
 }
+
+// verifZeroInitNil records, at package initialisation, whether Zero's cache
+// cell starts out as a nil slice.
+var verifZeroInitNil = Zero.gc != nil && *Zero.gc == nil
+
+// VerifResetZero puts Zero's cache cell back into the state it had at package
+// initialisation, so that the harness can start every history from the same
+// package-level state. It is never called by the library itself.
+func VerifResetZero() {
+	if verifZeroInitNil && Zero.gc != nil {
+		*Zero.gc = nil
+	}
+}
